@@ -457,6 +457,91 @@ VP_TARGET("pool_cxx_reinit", pool_cxx_reinit_target,
           "capacity, then the full pool_cxx history and checks against the new configuration (capacity before null, cells inside the new zone, free count)");
 VP_TARGET("pool_cxx_big", pool_cxx_big_target, "igris::pool with capacity 250..262, 33..300 or 508..516: same history and checks as pool_cxx");
 
+// Pools of thousands of cells (a packet pool, an event pool): few, large steps. Every cell handed out is inside the zone,
+// on a cell boundary and not handed out already; the free count is compared after each burst (it walks the free list).
+template <class A> static void pool_huge(Src &s, Case &c, const char *what)
+{
+    size_t el = s.coin() ? 8 : 16;
+    size_t cap = s.coin() ? (size_t)s.pick<uint32_t>({4095, 4096, 4097, 5000, 8191, 8192, 8193, 32767, 32768, 32769, 65535, 65536, 65537, 70000})
+                          : (size_t)s.range(3000, 70000);
+    Exact zone(el * cap);
+    memset(zone.p, 0xA5, el * cap);
+    A a(zone.p, cap, el);
+    c.log("%s elemsz=%zu cap=%zu: ", what, el, cap);
+    std::vector<uint8_t> out(cap, 0);
+    std::vector<size_t> live; // cell indices, in allocation order
+    auto counts = [&](const char *when) {
+        size_t av = a.avail();
+        VP_CHECK(av == cap - live.size(), "pool_free_count", "%s: %zu free reported, capacity %zu - live %zu = %zu", when, av, cap, live.size(), cap - live.size());
+    };
+    auto take = [&](size_t k) {
+        c.log("get x%zu ", k);
+        for (size_t i = 0; i < k; i++)
+        {
+            uint8_t *p = (uint8_t *)a.alloc(0);
+            if (live.size() == cap)
+            {
+                VP_CHECK(p == nullptr, "pool_over_capacity", "allocation #%zu succeeded with all %zu cells out", live.size() + 1, cap);
+                return;
+            }
+            VP_CHECK(p != nullptr, "pool_null_before_capacity", "allocation #%zu failed, capacity %zu", live.size() + 1, cap);
+            VP_CHECK(p >= zone.p && p < zone.p + el * cap && (size_t)(p - zone.p) % el == 0, "pool_cell_outside_zone", "cell at zone%+td (cell size %zu, %zu cells)",
+                     p - zone.p, el, cap);
+            size_t idx = (size_t)(p - zone.p) / el;
+            VP_CHECK(!out[idx], "pool_cell_handed_out_twice", "cell %zu handed out while it is live", idx);
+            out[idx] = 1;
+            live.push_back(idx);
+        }
+    };
+    auto give = [&](size_t k, int order) {
+        c.log("put x%zu (%s) ", k, order == 0 ? "newest first" : order == 1 ? "oldest first" : "every other");
+        for (size_t i = 0; i < k && !live.empty(); i++)
+        {
+            size_t at = order == 0 ? live.size() - 1 : order == 1 ? 0 : (i * 2) % live.size();
+            size_t idx = live[at];
+            // O(1) removal: order of the remaining entries does not matter to the checks
+            live[at] = live.back();
+            live.pop_back();
+            out[idx] = 0;
+            a.release(zone.p + idx * el);
+        }
+    };
+    counts("fresh pool");
+    bool exhausted = false, refilled = false;
+    for (unsigned r = 0, rounds = 2 + (unsigned)s.below(3); r < rounds; r++)
+    {
+        size_t room = cap - live.size();
+        size_t k = s.below(3) == 0 ? room + 1 : s.coin() ? room : (size_t)s.below(room + 1);
+        take(k);
+        if (live.size() == cap)
+        {
+            if (exhausted)
+                refilled = true;
+            exhausted = true;
+        }
+        counts("after a burst of allocations");
+        size_t g = s.below(3) == 0 ? live.size() : s.coin() ? (size_t)s.below(live.size() + 1) : std::min<size_t>(live.size(), 1 + (size_t)s.below(5000));
+        give(g, (int)s.below(3));
+        counts("after a burst of frees");
+    }
+    take(cap - live.size() + 1);
+    VP_CHECK(live.size() == cap, "pool_null_before_capacity", "only %zu of %zu cells could be taken at the end", live.size(), cap);
+    counts("exhausted");
+    give(live.size(), 1);
+    counts("all returned");
+    c.nontrivial = exhausted;
+    if (refilled)
+        c.label("exhausted_twice");
+    c.label(cap > 65535 ? "cap>65535" : cap > 32767 ? "cap>32767" : cap > 4096 ? "cap>4096" : "cap<=4096");
+}
+static void pool_c_huge_target(Src &s, Case &c) { pool_huge<PoolC>(s, c, "pool_c"); }
+static void pool_cxx_huge_target(Src &s, Case &c) { pool_huge<PoolCxx>(s, c, "pool_cxx"); }
+VP_TARGET("pool_c_huge", pool_c_huge_target,
+          "pool_head with 3000..70000 cells of 8 / 16 bytes (4096, 8192, 2^15, 2^16 and their neighbours over-weighted): 2..4 rounds of an allocation burst and a free burst "
+          "(newest first / oldest first / every other), then exhaust and return all; every cell inside the zone, on a cell boundary, never handed out twice; free count after "
+          "every burst; null exactly at capacity; non-trivial = the pool was exhausted during the rounds");
+VP_TARGET("pool_cxx_huge", pool_cxx_huge_target, "igris::pool with 3000..70000 cells: the bursts and checks of pool_c_huge");
+
 // ------------------------------------------------------------ object_pool
 // Element type that owns a heap byte (leaks / double destruction are ASan
 // visible) and registers `this` in a global live set.
